@@ -28,6 +28,14 @@ FAMILIES = {
         "primary": {"coxeter_matrix", "generators", "generator_index",
                     "ordered_gens"},
     },
+    "CP1Disk": {
+        "root": ("geometry_tools/complex_projective.py", "CP1Disk"),
+        "primary": {"proj_data", "aux_data", "dual_data"},
+    },
+    "Drawing": {
+        "root": ("geometry_tools/drawtools.py", "Drawing"),
+        "primary": {"transform", "model", "chart_index"},
+    },
     "FSA": {
         "root": ("geometry_tools/automata/fsa.py", "FSA"),
         "primary": {"_out_dict", "_in_dict", "_graph_dict", "start_vertices"},
@@ -61,6 +69,13 @@ def _stores(fnode):
                 a = _self_attr(el)
                 if a is not None:
                     out.append((a, n, isinstance(el, ast.Attribute)))
+        # filling a container held in a self attribute through a method
+        if isinstance(n, ast.Call) and isinstance(n.func, ast.Attribute) \
+                and n.func.attr in ("setdefault", "update", "append",
+                                    "extend", "add", "insert") :
+            a = _self_attr(n.func.value)
+            if a is not None:
+                out.append((a, n, False))
     return out
 
 
